@@ -1,3 +1,4 @@
+import SafeNet.Base.Sha256
 import SafeNet.Proofs.StoreCap
 import SafeNet.Proofs.StoreFlush
 /-!
@@ -34,6 +35,30 @@ theorem views_agree (cfg : Cfg) (dist : Nat → Nat) (inj : Injective dist) (ops
     cases hf : (run cfg dist ops).farthest with
     | none => rw [hf] at this; exact this
     | some p => obtain ⟨f, fd⟩ := p; rw [hf] at this; exact this
+
+/-- The same for the distance the code computes — the XOR of the SHA-256 digests (`Base/Sha256`) of the record key's
+bytes and of this node's peer-id bytes, which is the number on every `key` line of the correspondence run (the driver
+recomputes it): if SHA-256 does not collide on the keys in play and distinct keys have distinct bytes, the views agree
+for that metric. -/
+theorem views_agree_sha (cfg : Cfg) (keyBytes : Nat → List Nat) (self : List Nat)
+    (hkeys : ∀ a b, keyBytes a = keyBytes b → a = b)
+    (hsha : ∀ a b, SafeNet.Sha256.hashNat (keyBytes a) = SafeNet.Sha256.hashNat (keyBytes b) → keyBytes a = keyBytes b)
+    (ops : List Op) :
+    let dist := fun k => SafeNet.Sha256.hashNat (keyBytes k) ^^^ SafeNet.Sha256.hashNat self
+    let s := run cfg dist ops
+    (∀ d k, (d, k) ∈ s.byDist ↔ (k ∈ keys s.index ∧ d = dist k)) ∧
+    (match s.farthest with
+      | none => s.index = []
+      | some (f, fd) => f ∈ keys s.index ∧ fd = dist f ∧ ∀ k ∈ keys s.index, dist k ≤ fd) := by
+  intro dist s
+  have inj : Injective dist := by
+    intro a b h
+    have h' : SafeNet.Sha256.hashNat (keyBytes a) = SafeNet.Sha256.hashNat (keyBytes b) := by
+      have := congrArg (· ^^^ SafeNet.Sha256.hashNat self) h
+      simpa [dist, Nat.xor_assoc, Nat.xor_self] using this
+    exact hkeys _ _ (hsha _ _ h')
+  have h := views_agree cfg dist inj ops
+  exact ⟨h.1, h.2.2.2⟩
 
 /-- **The at-capacity decision**, in any state whose views agree (every reachable state, by `views_agree`):
 with at least `max_records` listed, a `put_verified` of an unlisted key that is not answered from the
@@ -465,6 +490,7 @@ example : Gen.Store.pruneRefuseStrict = true ∧ Gen.Store.farthestUpdateStrict 
     Gen.Store.maxRecordsCount = 16384 ∧ Gen.Store.cleanupMin = 1638 := by decide
 
 #print axioms SafeNet.Props.C10.views_agree
+#print axioms SafeNet.Props.C10.views_agree_sha
 #print axioms SafeNet.Props.C10.at_capacity_decision
 #print axioms SafeNet.Props.C10.at_capacity_decision_reachable
 #print axioms SafeNet.Props.C10.cleanup_exact
